@@ -477,11 +477,17 @@ def getStagedObjectFile (r : Repo) (id : Str) (p : LPath) : Except Err (List Dig
       match o.inv.contentPathsForDigest d o.inv.head.number (some p) with
       | .error e => .error e
       | .ok _ =>
-        if AL.get o.inv.manifest (o.inv.newContentPath p) == some d then
-          match AL.get o.files (o.inv.newContentPath p) with
+        -- own content path, else (deduplicated staged inventory after a failed commit) any staged
+        -- content path of the digest
+        let stagedCp : Option CPath :=
+          if AL.get o.inv.manifest (o.inv.newContentPath p) == some d then some (o.inv.newContentPath p)
+          else (o.inv.headPathsFor d).head?
+        match stagedCp with
+        | some cp =>
+          match AL.get o.files cp with
           | none => .error .io
           | some bytes => .ok [bytes]
-        else
+        | none =>
           let cand := (List.range (o.inv.head.number - 1)).reverse.filterMap (fun i =>
             match o.inv.getVersion (i + 1) with
             | some v => (v.state.find? (fun e => e.2 == d)).map (fun e => (i + 1, e.1))
